@@ -35,6 +35,7 @@ type C13Case struct {
 	RootSeed uint64     `json:"root_seed"`
 	Reload   bool       `json:"reload"`
 	HeavyN   int        `json:"heavy_n,omitempty"` // > 0: first a round that ends in a timeout (cross product over this many facts)
+	Marathon int        `json:"marathon,omitempty"` // > 0: that many cheap requests (Authorize, Reset) served before the rounds
 }
 
 // c13TimeoutRound: "any outcome of each round" includes a round that is cut short by the
@@ -120,7 +121,22 @@ func checkC13(c C13Case, rec *obs.Recorder) *obs.Violation {
 	if err != nil {
 		return obs.Violf("cannot build token %s: %v", c.Token.Text(), err)
 	}
-	reused, err := newAuthz(b, pub, m.Authz{})
+	// authorizers of a marathon case get an iteration limit of the order of the number of requests
+	// served (the rounds themselves need a handful of iterations each)
+	mkAuthorizer := func() (biscuit.Authorizer, error) {
+		if c.Marathon == 0 && c.RootSeed%7 == 0 {
+			// a tight fact limit given at creation: it is part of what "a newly created authorizer
+			// for the same token" means, before and after every Reset
+			return b.AuthorizerFor(biscuit.WithSingularRootPublicKey(pub), biscuit.WithWorldOptions(
+				datalog.WithMaxDuration(bridge.LongDuration), datalog.WithMaxFacts(2), datalog.WithMaxIterations(10000)))
+		}
+		if c.Marathon == 0 {
+			return newAuthz(b, pub, m.Authz{})
+		}
+		return b.AuthorizerFor(biscuit.WithSingularRootPublicKey(pub), biscuit.WithWorldOptions(
+			datalog.WithMaxDuration(bridge.LongDuration), datalog.WithMaxFacts(100000), datalog.WithMaxIterations(60)))
+	}
+	reused, err := mkAuthorizer()
 	if err != nil {
 		return obs.Violf("token does not verify: %v", err)
 	}
@@ -184,12 +200,25 @@ func checkC13(c C13Case, rec *obs.Recorder) *obs.Violation {
 		}
 		return wire.SnapshotKey(data)
 	}
+	if c.Marathon > 0 {
+		// a long-lived authorizer: many cheap requests (each derives a fact) were served and Reset
+		// before the rounds that are compared; whatever they used up is given back by Reset
+		for k := 0; k < c.Marathon; k++ {
+			reused.AddFact(bridge.ToFact(m.P("marathon_src", m.Int(int64(k)))))
+			reused.AddRule(bridge.ToRule(m.Rule{Head: m.P("marathon_out", m.Var("x")), Body: []m.Pred{m.P("marathon_src", m.Var("x"))}}))
+			reused.AddPolicy(bridge.ToPolicy(m.Policy{Allow: true, Queries: []m.Rule{{Head: m.Pred{Name: "policy"}, Body: []m.Pred{m.P("marathon_out", m.Var("y"))}}}}))
+			_ = reused.Authorize()
+			reused.Reset()
+		}
+		hist = append(hist, fmt.Sprintf("%d earlier requests, each followed by Reset", c.Marathon))
+		rec.Label("marathon")
+	}
 	for i, r := range c.Rounds {
 		snapGot, errGot := deliver(reused, r, true)
 		got := act(reused, r, func(q m.Rule) string { return queryKey(reused, q) })
 		reused.Reset()
 
-		fresh, err := newAuthz(b, pub, m.Authz{})
+		fresh, err := mkAuthorizer()
 		if err != nil {
 			return obs.Violf("fresh authorizer: %v", err)
 		}
@@ -242,6 +271,9 @@ func drawC13(t *rapid.T) C13Case {
 	c := C13Case{Token: sc.Token, RootSeed: rapid.Uint64Range(1, 1<<20).Draw(t, "root"), Reload: rapid.Bool().Draw(t, "reload")}
 	if rapid.IntRange(0, 39).Draw(t, "timeout-round") == 39 {
 		c.HeavyN = rapid.IntRange(16, 22).Draw(t, "heavy-n")
+	}
+	if rapid.IntRange(0, 19).Draw(t, "marathon") == 0 {
+		c.Marathon = rapid.IntRange(100, 130).Draw(t, "marathon-n")
 	}
 	n := rapid.IntRange(2, 6).Draw(t, "rounds")
 	cur := sc.Authz
@@ -296,7 +328,7 @@ func drawC13(t *rapid.T) C13Case {
 func TestC13(t *testing.T) {
 	rec := obs.New("C13")
 	defer rec.Flush(true)
-	rec.SetExtra("rule", "rapid histories on one authorizer: 2-6 rounds of (add facts / rules / checks / policies, then Authorize and/or a query panel, then Reset); the content of a round is the previous round with one request fact changed or dropped (and sometimes a check or policy dropped), unrelated content, or the content of an earlier round again. A fifth of the rounds deliver their content through LoadPolicies of a snapshot taken from a throw-away authorizer, two fifths through AddAuthorizer with a ParsedAuthorizer value that the long-lived authorizer receives again whenever the content recurs (the fresh authorizer of the comparison gets a value of its own), the rest through Add* calls; one history in forty starts with a round that is cut short by a 15 ms limit (4-way cross product over 16-22 facts), followed by Reset and a wait for the abandoned evaluation to end. Oracle: the independently decoded unevaluated snapshot (SerializePolicies), the outcome class and the panel answers of every round equal those of a fresh authorizer for the same token given only that round's content. Non-trivial = a history with a round whose result would differ if the previous round's content were still present (decided by running a fresh authorizer on the union); distinct by (token, history).")
+	rec.SetExtra("rule", "rapid histories on one authorizer: 2-6 rounds of (add facts / rules / checks / policies, then Authorize and/or a query panel, then Reset); the content of a round is the previous round with one request fact changed or dropped (and sometimes a check or policy dropped), unrelated content, or the content of an earlier round again. A fifth of the rounds deliver their content through LoadPolicies of a snapshot taken from a throw-away authorizer, two fifths through AddAuthorizer with a ParsedAuthorizer value that the long-lived authorizer receives again whenever the content recurs (the fresh authorizer of the comparison gets a value of its own), the rest through Add* calls; one history in seven runs under a fact limit of 2 given at creation, one in twenty follows 100-130 cheap requests (Authorize, Reset) under an iteration limit of 60, one history in forty starts with a round that is cut short by a 15 ms limit (4-way cross product over 16-22 facts), followed by Reset and a wait for the abandoned evaluation to end. Oracle: the independently decoded unevaluated snapshot (SerializePolicies), the outcome class and the panel answers of every round equal those of a fresh authorizer for the same token given only that round's content. Non-trivial = a history with a round whose result would differ if the previous round's content were still present (decided by running a fresh authorizer on the union); distinct by (token, history).")
 	rec.SetExtra("assumptions", []string{"comparison is between two executions of the library; correctness of each verdict is C04's subject"})
 	harness.RunWith(t, harness.Spec[C13Case]{ID: "C13", Draw: drawC13, Check: checkC13}, rec)
 }
